@@ -1,10 +1,11 @@
 #!/usr/bin/env python3
 """Copies sub-agent deliverables /tmp/seedout/Cxx/{A,B} into /verif/seeded/Cxx-{A,B}/ (patch.diff, demo.rs, README.md, meta.json)."""
 import json, os, shutil, sys
-ids = sys.argv[1:] or ["C%02d" % i for i in range(1, 21)]
+ids = [a for a in sys.argv[1:] if not a.startswith("--")] or ["C%02d" % i for i in range(1, 21)]
+round2 = "--round2" in sys.argv
 for pid in ids:
-    for v in "AB":
-        src = "/tmp/seedout/%s/%s" % (pid, v)
+    for v in ("CD" if round2 else "AB"):
+        src = "/tmp/%s/%s/%s" % ("seedout2" if round2 else "seedout", pid, v)
         if not os.path.exists(os.path.join(src, "patch.diff")):
             continue
         dst = "/verif/seeded/%s-%s" % (pid, v)
@@ -16,7 +17,7 @@ for pid in ids:
         crate = "chess_base" if "chess_base/tests" in readme else "chess"
         meta_path = os.path.join(dst, "meta.json")
         meta = json.load(open(meta_path)) if os.path.exists(meta_path) else {}
-        meta.update({"property": pid, "origin": "written by an independent sub-agent that saw only the property text and a scratch worktree", "needs": " ".join(readme.split())[:700], "demo_crate": crate})
+        meta.update({"property": pid, "origin": ("second round: " if round2 else "") + "written by an independent sub-agent that was given only the property text and a scratch worktree" + (" plus one-line summaries of the first-round changes to avoid repeats" if round2 else ""), "needs": " ".join(readme.split())[:700], "demo_crate": crate})
         meta.setdefault("also", [])
         json.dump(meta, open(meta_path, "w"), indent=1)
         print("imported", dst)
